@@ -18,7 +18,8 @@ RULE = ("Hypothesis draws positive-definite (cholesky) or non-singular (plu; inc
         "and no dense node of the result is larger than the largest dense leaf of the input. Non-trivial: a structural rule, "
         "a complex input or a pivoting case."
         " Further: rows of dense leaves graded over 10^-5..10^5 (plu), block diagonals of 3-4 blocks with equal-sized"
-        " dense blocks that are not adjacent.")
+        " dense blocks that are not adjacent."
+        " Round 5: two blocks that are views (B, B^T) of one buffer.")
 ASSUMPTIONS = [
     "reconstruction tolerance: ||F - M||_max <= 1e3 * eps * n * ||M||_max with eps of the coarsest dtype in the tree",
     "inputs are positive definite / non-singular by construction (B B^H + cI, diagonally dominant integer matrices, row permutations of those)",
